@@ -342,10 +342,33 @@ fn directed_c07() -> SchedGen {
     }
 }
 
+/// monitor-only runs with a custom `retry_options` closure (scenarios that START with `current != 0`): the
+/// scheduler model resolves retry options from tags, so only the stream monitors (`framed`, `completeness`)
+/// are compared for these runs — request name `sched.mon`
+pub fn gen_sched_custom_case(rng: &mut Rng, idx: usize) -> Case {
+    let _ = idx;
+    let lazy = rng.chance(1, 3);
+    let mut sg = gen_sched(rng, lazy);
+    sg.g.cfg.custom_retry = true;
+    // several such scenarios per feature, other features queued in between, room for them in one batch
+    let p = *rng.pick(&[2usize, 4, 6]);
+    for f in &mut sg.g.feats {
+        for s in f.scens.iter_mut().chain(f.rules.iter_mut().flat_map(|r| r.scens.iter_mut())) {
+            if rng.chance(p, 8) { s.tags.push((*rng.pick(&["cr1", "cr1", "cr2"])).to_owned()); }
+        }
+    }
+    if rng.chance(2, 3) { sg.g.cfg.builder_conc = Some(Some(rng.range(3, 6))); sg.g.cfg.cli_conc = None; }
+    sched_case_of(sg, rng, "sched.mon")
+}
+
 fn sched_case(rng: &mut Rng, idx: usize, lazy: bool) -> Case {
     let sg = if lazy && idx == 0 { directed_c07() } else { gen_sched(rng, lazy) };
+    sched_case_of(sg, rng, "sched.run")
+}
+
+fn sched_case_of(sg: SchedGen, rng: &mut Rng, req_name: &str) -> Case {
     let (out, _mon10) = run_sched(&sg, rng);
-    let req = sched_request(&sg, &out.log);
+    let req = sched_request(&sg, &out.log).replacen("sched.run", req_name, 1);
     let nlabels = out.log.len();
     let has = |p: &str| out.log.iter().any(|l| l.starts_with(p));
     let class = format!(
